@@ -25,7 +25,8 @@ First generation (x/auction), one seized vault:
   dutch.v1.bid   who slice                <ok|err|validate|panic> <rec1> <balances> <misc>
   dutch.v1.tick  now twaC actC twaD actD  <ok|panic> <rec1> <balances> <misc>
 rec1 := `closed` | `out=..;in=..;price=..;init=..;endp=..;inp=..;start=..;end=..`   misc := `net=<n|none>;supply=..`
-Monitors (on REAL values): pay_le_target receive_le_collateral posted_price price_monotone price_in_range
+Monitors (on REAL values): pay_le_target receive_le_collateral books_exact (+ `_after_d7` variants, see `finish`) posted_price
+price_monotone price_in_range price_below_end_at_T
 price_in_range_slack close_distributes reserve_draw_skipped limit_fill_overcharge start_price start_record.
 -/
 -- DRIVER: prefix=dutch ns=Comdex.Drv.Dutch
@@ -82,6 +83,7 @@ structure St where
   begin_ : Option Obs := none
   drawnReal : Int := 0
   shortReal : Int := 0
+  d7 : Bool := false       -- two limit bids of one premium bucket were debited in one block (known finding D7)
   overReal : Int := 0      -- limit deposits debited beyond what the auction charged (auctions.go:567-572)
   closedSeen : Bool := false
   v1 : V1St := {}
@@ -174,6 +176,13 @@ def parseLB (s : String) : Option (List (Int × String × Int)) :=
 
 def mon (seq name : String) (ok : Bool) : List String := if ok then [] else [s!"MON\t{seq}\t{name}"]
 
+
+/-- exact lower bound `price ≥ end` on a real price: at the very last second of the window (`dur = T`) the truncated tau puts
+the price below the end price (known finding D8) — that case has its own stable name -/
+def lowerMon (seq : String) (dur T : Int) (endP price : Dec) : List String :=
+  if dur = T then mon seq "price_below_end_at_T" (DutchPrice.monGeEnd endP price)
+  else mon seq "price_in_range" (DutchPrice.monGeEnd endP price)
+
 /-- per-bidder real deltas between two observations: (name, debt paid, collateral received) -/
 def bidderDeltas (before after : Obs) : List (String × Int × Int) :=
   ["b1", "b2", "b3", "b4"].map fun n =>
@@ -189,7 +198,7 @@ def priceMons (seq : String) (e : Env) (prev : Option Auc) (cur : Auc) (now : In
   let lower :=
     match DutchPrice.endPrice top e.discount with
     | .ok endP =>
-      (if 0 ≤ dur ∧ dur ≤ e.T then mon seq "price_in_range" (DutchPrice.monGeEnd endP cur.price) else []) ++
+      (if 0 ≤ dur ∧ dur ≤ e.T then lowerMon seq dur e.T endP cur.price else []) ++
       (match DutchPrice.tau top endP e.T with
        | .ok t => if 0 ≤ dur ∧ dur ≤ e.T ∧ 0 ≤ endP ∧ endP < top then
                     mon seq "price_in_range_slack" (DutchPrice.monGeEndSlack top endP t cur.price) else []
@@ -230,8 +239,15 @@ def finish (st : St) (seq : String) (outcomeModelOk : Bool) (outcome : String) (
   let skipped : Int := if bidLike ∧ recDelta > resD0 - resD1 then recDelta - (resD0 - resD1) else 0
   let shortReal := st.shortReal + skipped
   let m0 := mon seq "reserve_draw_skipped" (decide (skipped = 0))
-  let m1 := mon seq "pay_le_target" (decide (realPaid ≤ st.e.target))
-  let m2 := mon seq "receive_le_collateral" (decide (realRecv ≤ st.e.coll0))
+  -- after a D7 event the record of this auction is corrupted for good: everything the ledger monitors say from then on
+  -- (in this sequence only) carries the suffix, so that the same monitors stay meaningful everywhere else
+  let sfx := if st.d7 then "_after_d7" else ""
+  let m1 := mon seq ("pay_le_target" ++ sfx) (decide (realPaid ≤ st.e.target))
+  let m2 := mon seq ("receive_le_collateral" ++ sfx) (decide (realRecv ≤ st.e.coll0))
+  -- while open the REAL books are exact: paid + remaining target = target, received + remaining collateral = seized
+  let mB := match o.auc with
+    | some a => mon seq ("books_exact" ++ sfx) (decide (realPaid - overReal + a.debt = st.e.target) && decide (realRecv + a.coll = st.e.coll0))
+    | none => []
   -- close: custody and distribution on real balances
   let closing := prev.auc.isSome ∧ o.auc.isNone
   let m3 :=
@@ -246,12 +262,12 @@ def finish (st : St) (seq : String) (outcomeModelOk : Bool) (outcome : String) (
         let out := burned + dlt "collector" + dlt "keeper" + dlt "initiator" + dlt "pool" + (o.ext - st.ext0)
         let proceeds := decide (realPaid - overReal + drawn + shortReal = out) && decide (out = st.e.target)
         let ownerOk := decide ((balOf o "owner").1 - (balOf b0 "owner").1 = st.e.coll0 - realRecv)
-        mon seq "close_distributes" (custody && proceeds && ownerOk)
+        mon seq ("close_distributes" ++ sfx) (custody && proceeds && ownerOk)
     else []
   let st' := { st with prev := some o, realPaid := realPaid, realRecv := realRecv, baseD := baseD, drawnReal := drawn, shortReal := shortReal, overReal := overReal,
                        closedSeen := st.closedSeen || closing }
   let st' := if d2.isEmpty then st' else adopt st' o
-  (st', d1 ++ d2 ++ m0 ++ mOver ++ m1 ++ m2 ++ m3 ++ extraMons)
+  (st', d1 ++ d2 ++ m0 ++ mOver ++ mB ++ m1 ++ m2 ++ m3 ++ extraMons)
 
 def pureLine (seq : String) (m : Except Unit Int) (o v : String) (okTag : String := "ok") : List String :=
   let ms := match m with | .ok x => s!"{okTag}\t{x}" | .error _ => "fail\t-"
@@ -350,7 +366,7 @@ def priceMons1 (seq : String) (e : DutchV1.Env) (prev : Option DutchV1.Auc) (cur
   let valid := decide (0 ≤ cur.endP) && decide (cur.endP < cur.init)
   let upper := mon seq "price_in_range" (DutchPrice.monLeStart cur.init cur.price)
   let lower := if valid ∧ 0 ≤ dur ∧ dur ≤ e.T then
-      mon seq "price_in_range" (DutchPrice.monGeEnd cur.endP cur.price) ++
+      lowerMon seq dur e.T cur.endP cur.price ++
       (match DutchPrice.tau cur.init cur.endP e.T with
        | .ok t => mon seq "price_in_range_slack" (DutchPrice.monGeEndSlack cur.init cur.endP t cur.price)
        | .error _ => [])
@@ -447,7 +463,7 @@ def handle (st : St) (seq : String) (f : List String) : St × List String :=
       let m := match parseInt? v, DutchPrice.endPrice top disc with
         | some p, .ok endP =>
           if o = "ok" ∧ 0 ≤ dur ∧ dur ≤ T ∧ 0 ≤ endP ∧ endP < top then
-            mon seq "price_in_range" (DutchPrice.monLeStart top p && DutchPrice.monGeEnd endP p) ++
+            mon seq "price_in_range" (DutchPrice.monLeStart top p) ++ lowerMon seq dur T endP p ++
             (match DutchPrice.tau top endP T with
              | .ok t => mon seq "price_in_range_slack" (DutchPrice.monGeEndSlack top endP t p)
              | .error _ => [])
@@ -462,7 +478,7 @@ def handle (st : St) (seq : String) (f : List String) : St × List String :=
       let m := match parseInt? v with
         | some p =>
           if o = "ok" ∧ 0 ≤ dur ∧ dur ≤ T ∧ 0 ≤ endP ∧ endP < top then
-            mon seq "price_in_range" (DutchPrice.monLeStart top p && DutchPrice.monGeEnd endP p) ++
+            mon seq "price_in_range" (DutchPrice.monLeStart top p) ++ lowerMon seq dur T endP p ++
             (match DutchPrice.tau top endP T with
              | .ok t => mon seq "price_in_range_slack" (DutchPrice.monGeEndSlack top endP t p)
              | .error _ => [])
@@ -546,7 +562,12 @@ def handle (st : St) (seq : String) (f : List String) : St × List String :=
              else [])
         | none => []
       let dpanic := if o = "ok" then [] else [s!"DIFF\t{seq}\tbegin blocker panicked"]
-      let st1 := { st with s := s' }
+      -- D7 on REAL values: two different bidders waiting at one premium were both debited in this block
+      let debited : List (Int × String) := lb0.filterMap fun (p, n, a) =>
+        let after := match lb1.find? (fun (p', n', _) => p' = p ∧ n' = n) with | some (_, _, a') => a' | none => 0
+        if a - after > 0 then some (p, n) else none
+      let d7now := debited.any fun (p, n) => debited.any fun (p', n') => p' = p ∧ n' ≠ n
+      let st1 := { st with s := s', d7 := st.d7 || d7now }
       let (st2, outs) := finish st1 seq true "ok" obs false consumed pm (s'.paid - st.s.paid)
       (st2, dpanic ++ outs)
     | _, _, _, _, _, _, _, _ => (st, [s!"BAD\t{seq}\ttick"])
